@@ -774,7 +774,9 @@ func doReifyPrimitive(
 		if err != nil {
 			return reflect.Value{}, raiseConversion(opts.opts, val, err, "string")
 		}
-		return reflect.ValueOf(s), nil
+		// named string types: the value has the type of the target, as for
+		// the other kinds
+		return reflect.ValueOf(s).Convert(baseType), nil
 
 	case extras[baseType] != nil:
 		v, err := extras[baseType](opts, val, baseType)
